@@ -137,6 +137,8 @@ def tg_op_cases(draw):
         op.update(name=draw(anyname))
     elif kind == "rename":
         op.update(name=draw(anyname), new=draw(st.sampled_from(names + ["zz", "yy"])), widen_first=draw(st.integers(0, 2)) == 0)
+        if len(names) >= 2 and draw(st.booleans()):
+            op.update(name=names[0], new=names[1])  # a name that is taken
     elif kind == "replace":
         op.update(name=draw(anyname if len(names) > 1 else st.sampled_from(names + names + ["zz"])), new=draw(st.sampled_from(names + ["zz"])),
                   span=draw(st.sampled_from([[spec["minT"], spec["maxT"]], [spec["minT"], spec["maxT"] + 1.0]])),
